@@ -175,6 +175,34 @@ Section Conc.
   Proof. intros Sc P. exact (finished_call_same_result (premise_gives_frame sites Sc P)). Qed.
 End Conc.
 
+(* What `scanned` amounts to. With an empty list it is exactly the frame condition (so the theorems "under the premise" are the frame theorem
+   read through the scanner's report, not a stronger result), and with a non-empty list it constrains nothing by itself (every machine is
+   `scanned` by the list that blames every instruction). The logical content of C19 on the machine is the frame theorem; what `scanned` adds is
+   the *name* of what is trusted about the Go tool chain: the report of harness/cmd/vscan is complete and an unreported instruction does not write. *)
+Lemma scanned_nil_iff_frame (Shared Local : Type) (step : Shared -> Local -> Shared * Local) :
+  (exists at_site, scanned Shared Local step at_site []) <-> (forall s l, fst (step s l) = s).
+Proof.
+  split.
+  - intros [at_site Sc]. exact (premise_gives_frame Shared Local step at_site [] Sc eq_refl).
+  - intro F. exists (fun _ => None). split; [intros l st H; discriminate H | intros s l _; apply F].
+Qed.
+
+Lemma scanned_blame_everything (Shared Local : Type) (step : Shared -> Local -> Shared * Local) (st : site) :
+  scanned Shared Local step (fun _ => Some st) [st].
+Proof. split; [intros l st' H; injection H as <-; left; reflexivity | intros s l H; discriminate H]. Qed.
+
+(* The form instantiated by the generated file (step "ssa-premise": `shared_sites` is the list printed by the scan of the tree under analysis):
+   `premiseb sites = true` is discharged there by `eq_refl`, which type-checks only when the generated list is empty. *)
+Theorem noninterference_for_scanned_list (sites : list site) : premiseb sites = true ->
+  forall (Shared Local : Type) (step : Shared -> Local -> Shared * Local) (at_site : Local -> option site),
+    scanned Shared Local step at_site sites ->
+    forall sched s ls t,
+      fst (run Shared Local step sched s ls) = s /\
+      snd (run Shared Local step sched s ls) t = solo Shared Local step (steps_of sched t) s (ls t).
+Proof.
+  intros P Sh Lo step at_site Sc. apply (noninterference_under_premise Sh Lo step at_site sites Sc). now apply premiseb_spec.
+Qed.
+
 (* ---------- non-vacuity: a concrete system that satisfies the premise ---------- *)
 
 (* Two kinds of calls over a shared read-only argument (a list of numbers): thread state = (program counter, accumulator);
